@@ -28,6 +28,8 @@
 //@harness nofeedback_expired_teqn_ceiling   props=C14,C13     kind=full target=SendRateComp::nofeedback_expired needs=check_initial_send_rate
 //@harness step_no_feedback_before_deadline  props=C14     kind=full target=SendRateComp::step
 //@harness step_await_send_is_inert          props=C14,C03 kind=full target=SendRateComp::step
+//@harness notify_frame_sent_starts_slow_start props=C14,C03 kind=full target=SendRateComp::notify_frame_sent
+//@harness notify_frame_sent_later_frames    props=C14 kind=full target=SendRateComp::notify_frame_sent
 //@harness check_eval_tcp_throughput_inv     props=C14,C03 kind=bounded target=eval_tcp_throughput_inv bound="bisection executions with at most 6 evaluations of the throughput equation; longer runs are cut by assume" needs=check_eval_tcp_throughput
 //@harness floats_cover_requires             props=C14,C03 kind=cover target=SendRateComp
 
@@ -298,6 +300,40 @@ fn step_await_send_is_inert() {
     let fb: Option<FeedbackData> = if kani::any() { Some(FeedbackData { rtt_ms: kani::any(), receive_rate: kani::any(), loss_rate: kani::any(), rate_limited: kani::any() }) } else { None };
     c.step(now, fb, |_p| {});
     assert!(c.send_rate == rate && matches!(c.mode, SendRateMode::AwaitSend));
+}
+
+/// RFC 5348 4.2: when the first packet is sent the nofeedback timer is set to 2 seconds; X stays at its initial value; the
+/// receive-rate set starts as {infinity} (4.3: "X_recv_set = {Infinity, ..}"). Establishes the invariant the other harnesses assume.
+#[kani::proof]
+#[kani::unwind(6)]
+fn notify_frame_sent_starts_slow_start() {
+    let now: u64 = kani::any();
+    kani::assume(now <= NOW_MAX);
+    let mut c = any_comp(recv_rate_set::RecvRateSet::new());
+    kani::assume(matches!(c.mode, SendRateMode::AwaitSend) && i1(&c));
+    let (rate, ceil) = (c.send_rate, c.max_send_rate);
+    c.notify_frame_sent(now);
+    assert!(matches!(c.mode, SendRateMode::SlowStart(SlowStartState { time_last_doubled_ms: None })), "C14: the first frame starts slow start");
+    assert!(c.nofeedback_exp_ms == Some(now + 2000) && !c.nofeedback_idle, "C14: initial no-feedback timer is 2 s");
+    assert!(c.send_rate == rate && c.max_send_rate == ceil, "C14/C13: sending a frame does not change the rate");
+    assert!(c.recv_rate_set.kv_len() == 1 && c.recv_rate_set.kv_max() == Some(u32::MAX) && c.recv_rate_set.kv_ts_le(now), "C14: X_recv_set = {infinity}");
+    assert_inv(&c, now);
+}
+
+/// every later frame only clears the idle flag
+#[kani::proof]
+#[kani::unwind(6)]
+fn notify_frame_sent_later_frames() {
+    let now: u64 = kani::any();
+    kani::assume(now <= NOW_MAX);
+    let mut c = any_state(now);
+    kani::assume(!matches!(c.mode, SendRateMode::AwaitSend));
+    let (rate, exp, n, m) = (c.send_rate, c.nofeedback_exp_ms, c.recv_rate_set.kv_len(), c.recv_rate_set.kv_max());
+    let slow = matches!(c.mode, SendRateMode::SlowStart(_));
+    c.notify_frame_sent(now);
+    assert!(c.send_rate == rate && c.nofeedback_exp_ms == exp && !c.nofeedback_idle, "C14: only the idle flag changes");
+    assert!(c.recv_rate_set.kv_len() == n && c.recv_rate_set.kv_max() == m && slow == matches!(c.mode, SendRateMode::SlowStart(_)));
+    assert_inv(&c, now);
 }
 
 // ---- the bisection -----------------------------------------------------------------------------------------------------
